@@ -31,10 +31,12 @@
 #include <soundswallower/dict.h>
 #include <soundswallower/err.h>
 #include <soundswallower/fsg_model.h>
+#include <soundswallower/fsg_search.h>
 #include <soundswallower/jsgf.h>
 #include <soundswallower/lattice.h>
 #include <soundswallower/s3file.h>
 #include <soundswallower/search_module.h>
+#include <soundswallower/state_align_search.h>
 #include "vtrace.h"
 
 #define MAXAUDIO 64
@@ -227,6 +229,10 @@ dump_fsg(fsg_model_t *fsg, const char *kind, int ret)
 {
     int i, first = 1;
     fprintf(vt_out, "{\"e\":\"Grammar\",\"kind\":\"%s\",\"ret\":%d", kind, ret);
+    if (d && d->search && ret == 0) { /* the beams the search actually uses (scaled log domain) */
+        fsg_search_t *fs = (fsg_search_t *)d->search;
+        fprintf(vt_out, ",\"beam\":%d,\"pbeam\":%d,\"wbeam\":%d", (int)fs->beam_orig, (int)fs->pbeam_orig, (int)fs->wbeam_orig);
+    }
     if (fsg) {
         fprintf(vt_out, ",\"n\":%d,\"start\":%d,\"final\":%d,\"lw_milli\":%d,\"arcs\":[", fsg_model_n_state(fsg),
                 fsg_model_start_state(fsg), fsg_model_final_state(fsg), (int)(fsg_model_lw(fsg) * 1000 + 0.5));
@@ -498,20 +504,23 @@ static void
 cmd_alignment(const char *tag)
 {
     alignment_t *al, *al2;
-    int p;
+    int p, reused;
     pass = 2;
     scored[2] = 0;
     last_scored_frame[2] = -1;
     order_ok[2] = 1;
+    /* the decoder documents that it reuses the previous alignment when no frame was searched since */
+    reused = d->align != NULL && ((state_align_search_t *)d->align)->frame == d->acmod->output_frame;
     al = decoder_alignment(d);
     p = scored[2];
-    al2 = al ? decoder_alignment(d) : NULL;
+    /* ask again only when the decoder says it will reuse (otherwise the first object is freed) */
+    al2 = (al && d->align && ((state_align_search_t *)d->align)->frame == d->acmod->output_frame) ? decoder_alignment(d) : al;
     pass = 1;
     fprintf(vt_out, "{\"e\":\"Align\",\"tag\":\"%s\",\"null\":%s", tag, al ? "false" : "true");
     if (al) {
         int w;
-        fprintf(vt_out, ",\"again_same\":%s,\"rescored\":%d,\"in_order\":%s,\"words\":", al == al2 ? "true" : "false", p,
-                order_ok[2] ? "true" : "false");
+        fprintf(vt_out, ",\"again_same\":%s,\"reused\":%s,\"rescored\":%d,\"in_order\":%s,\"words\":",
+                al == al2 ? "true" : "false", reused ? "true" : "false", p, order_ok[2] ? "true" : "false");
         emit_align_level(alignment_words(al), 0);
         fprintf(vt_out, ",\"flat_phones\":");
         emit_flat(alignment_phones(al));
@@ -529,7 +538,8 @@ cmd_alignment(const char *tag)
             }
             fputc(']', vt_out);
         }
-        fprintf(vt_out, "],\"nstate\":%d", bin_mdef_n_emit_state(d->acmod->mdef));
+        fprintf(vt_out, "],\"nstate\":%d,\"wip\":%d,\"pip\":%d", bin_mdef_n_emit_state(d->acmod->mdef),
+                d->search ? (int)((fsg_search_t *)d->search)->wip : 0, d->search ? (int)((fsg_search_t *)d->search)->pip : 0);
     }
     fprintf(vt_out, "}\n");
 }
@@ -612,7 +622,9 @@ cmd_json(const char *tag, int start_ms, int level)
             }
             fputc(']', vt_out);
         } else {
-            alignment_t *al = decoder_alignment(d);
+            /* the alignment the JSON call just used (asking decoder_alignment() again may run the second
+             * pass again), read through the public aligner struct */
+            alignment_t *al = d->align ? ((state_align_search_t *)d->align)->al : NULL;
             if (al)
                 emit_view_align(alignment_words(al), 0, level >= 2 ? 2 : 1);
             else
